@@ -706,7 +706,11 @@ def _check_solved(case, it, w, viol, stats, probe, props):
         return
     out = last_healthy
     m = it.env['m']
-    tol = TOL if case['solves'][-1]['solver'] != 'eco' else 2e-5
+    last_sv = [s_['solver'] for s_ in case['solves'] if s_['op'] == 'solve'][-1]
+    tol = TOL if last_sv != 'eco' else 2e-5
+    # tolerance for individual values: relative to the scale of the solution (an interior-point engine returns 1e-5
+    # where the exact value is 0 while other entries are of order 10-100)
+    vtol = (1e-5 if last_sv != 'eco' else 1e-4) * (1.0 + abs(out['obj']))
 
     if case['kind'] == 'mix':
         ref_opt = mix_reference(case)
@@ -840,10 +844,10 @@ def _check_solved(case, it, w, viol, stats, probe, props):
                     # the intercept is only pinned down to an interval: C R_e <= y0 <= t - C r_s
                     lo_ = expv[s][i]
                     hi_ = ex['t'][s][i] - ex['C'][i] * case['r'][s]
-                    okv = lo_ - 1e-5 * (1 + abs(lo_)) <= g <= hi_ + 1e-5 * (1 + abs(hi_))
+                    okv = lo_ - vtol <= g <= hi_ + vtol
                     want = '[%.9g, %.9g]' % (lo_, hi_)
                 else:
-                    okv = close(g, expv[s][i], 1e-5)
+                    okv = abs(g - expv[s][i]) <= vtol
                     want = '%.9g' % expv[s][i]
                 if not okv:
                     viol('C12', 'labelled-value', '%s.get()[label %r][%d] = %.9g, closed form for that scenario %s '
@@ -900,7 +904,7 @@ def _check_solved(case, it, w, viol, stats, probe, props):
                 # scenario s and consistent with t: (dev + C) R_e <= y0 and y0 + (dev + C) r_s <= t
                 y0s, ts = float(ycall[s][i]), float(tcall[s][i])
                 need = (dev + ex['C'][i])
-                tol_ = 1e-5 * (1 + abs(ts) + abs(y0s))
+                tol_ = vtol + 1e-5 * (abs(ts) + abs(y0s))
                 if y0s < need * case['r'][s] - tol_ or y0s + need * case['r'][s] > ts + tol_:
                     viol('C12', 'coefficient', 'rule read back for y[%d] at label %r (intercept %.9g, coefficients %s) is not '
                          'consistent with the solved model: needs intercept >= %.9g and t = %.9g >= %.9g'
